@@ -84,7 +84,45 @@ def partial_tiebreak_case(rng):
     return None
 
 
+def double_residual_tie_case(rng):
+    """a tie of four or more candidates across the seat boundary that the secondary scores split into two or more
+    groups that are still tied ({A,B} > {C,D}): every still-tied group falls back to a random order of its own"""
+    from collections import Counter
+    for _ in range(4000):
+        rule = rng.choice(["Plurality", "SNTV", "Borda"])
+        tb = "first_place" if rule == "Borda" else "borda"
+        spec = gen.gen_ranked_spec(rng, nmin=4, nmax=5, ties=False, partial=False, weights="unit", bmin=4, bmax=8)
+        n = len(spec["c"])
+        fpv = {c: Fraction(0) for c in spec["c"]}
+        borda = {c: Fraction(0) for c in spec["c"]}
+        for b in spec["b"]:
+            w = Fraction(b["w"])
+            fpv[b["r"][0][0]] += w
+            for pos, s0 in enumerate(b["r"]):
+                borda[s0[0]] += w * (n - pos)
+        prim, sec = (borda, fpv) if rule == "Borda" else (fpv, borda)
+        vals = sorted(prim.values(), reverse=True)
+        ms = []
+        for m in range(1, n):
+            if vals[m - 1] != vals[m]:
+                continue
+            G = [c for c in spec["c"] if prim[c] == vals[m - 1]]
+            cnt = Counter(sec[c] for c in G)
+            if len(G) >= 4 and sum(1 for v in cnt.values() if v >= 2) >= 2:
+                ms.append(m)
+        if ms:
+            k = rng.randint(1, 3)
+            for b in spec["b"]:
+                b["w"] = rat(Fraction(b["w"]) * k)
+            return {"rule": rule, "cfg": {"m": rng.choice(ms), "tiebreak": tb}, "spec": spec, "rs": rng.randint(0, 10 ** 9)}
+    return None
+
+
 def gen_case(rng, rule=None):
+    if rule is None and rng.random() < 0.01:
+        c = double_residual_tie_case(rng)
+        if c is not None:
+            return c
     if rule is None and rng.random() < 0.03:
         c = partial_tiebreak_case(rng)
         if c is not None:
